@@ -255,6 +255,21 @@ pub fn run_c07(o: &mut Out, seed: u64, thorough: bool, replay: Option<Vec<String
             c07_case(o, &to_bytes(&one), &[rb.clone()], flags, 11_000_000_000);
         }
     }
+    // procedural generators whose spend list ends in an empty atom that is NOT the allocator's canonical nil node
+    // (`substr` of a heap atom): still the empty atom, i.e. a proper list end, for both paths
+    {
+        let spend = |par: u8| list(vec![at(&[par; 32]), at(&[1]), int(1), nil()], nil());
+        let term = list(vec![at(&[12]), pair(at(&[1]), at(&[0x42; 32])), nil(), nil()], nil());      // (substr (q . 0x42..) () ())
+        let c = |x: T, y: T| list(vec![at(&[4]), x, y], nil());
+        let q = |x: T| pair(at(&[1]), x);
+        let g0 = c(term.clone(), nil());                                                                // no spends
+        let g1 = c(c(q(spend(0x21)), term.clone()), nil());
+        let g2 = c(c(q(spend(0x21)), c(q(spend(0x22)), term.clone())), nil());
+        let bad = c(c(q(spend(0x21)), q(at(&[1]))), nil());                                             // non-empty terminator: both reject
+        for g in [&g0, &g1, &g2, &bad] { for flags in [F_DONT_VALIDATE, F_DONT_VALIDATE | F_COST | F_LIMIT] {
+            c07_case(o, &to_bytes(g), &[], flags, 11_000_000_000);
+        }}
+    }
     let n = if thorough { 40_000 } else { 3_000 };
     for _ in 0..n {
         let mut sp = gen_gspends(&mut r, &p);
@@ -624,6 +639,21 @@ pub fn run_c09(o: &mut Out, seed: u64, thorough: bool, replay: Option<Vec<String
         let sp = GSpend { parent: p.ids[0], puzzle: at(&[1]), amount_atom: int(amount), solution: conds, extra: nil() };
         let g = quoted_generator(&[sp], nil(), nil());
         for flags in [F_DONT_VALIDATE, F_DONT_VALIDATE | F_COST] { c09_case(o, &to_bytes(&g), flags); }
+    }}
+    // the spend-count limit: blocks of exactly 5999 / 6000 spends under LIMIT_SPENDS (full validation accepts both)
+    for n in [5999u32, 6000] {
+        let v: Vec<GSpend> = (0..n).map(|i| { let mut par = [0x55u8; 32]; par[..4].copy_from_slice(&i.to_be_bytes());
+            GSpend { parent: par, puzzle: at(&[1]), amount_atom: int(1), solution: nil(), extra: nil() } }).collect();
+        let g = quoted_generator(&v, nil(), nil());
+        ORACLE_LIMIT.store(2_000_000, std::sync::atomic::Ordering::Relaxed);
+        c09_case(o, &to_bytes(&g), F_DONT_VALIDATE | F_LIMIT);
+        ORACLE_LIMIT.store(150_000, std::sync::atomic::Ordering::Relaxed);
+    }
+    // opcode atoms that are NOT create-coin although their integer value is 51
+    for opc in [vec![0u8, 51], vec![0, 0, 51], vec![51, 0]] { for flags in [F_DONT_VALIDATE, F_DONT_VALIDATE | F_COST] {
+        let conds = list(vec![pair(at(&opc), list(vec![at(&p.ids[1]), int(1)], nil())), pair(at(&[51]), list(vec![at(&p.ids[2]), int(2)], nil()))], nil());
+        let coin = Coin::new(Bytes32::new(p.ids[0]), Bytes32::new(tree_hash_t(&at(&[1]))), 1000);
+        c09_sb_case(o, &[(coin, to_bytes(&at(&[1])), to_bytes(&conds))], flags);
     }}
     // sibling coins: same parent and amount, different puzzles (the lookup must not stop at the first near match)
     for amount in [1u64, 1000] { for rev in [false, true] {
